@@ -16,7 +16,6 @@ import (
 	"math/big"
 	"os"
 	"path/filepath"
-	"runtime/pprof"
 	"sort"
 	"strconv"
 	"strings"
@@ -1031,11 +1030,6 @@ func encCase(rng *hx.Rng, zeros, passKind, n, p int) {
 
 func main() {
 	run = hx.Start()
-	if pf := os.Getenv("C20_CPUPROFILE"); pf != "" {
-		f, _ := os.Create(pf)
-		pprof.StartCPUProfile(f)
-		defer pprof.StopCPUProfile()
-	}
 	log.Root().SetHandler(log.DiscardHandler())
 	rng := hx.NewRng(run.Seed)
 	run.Watch(120*time.Second, 3<<30, func(cur string) string { return "hang-or-oom " + cur })
